@@ -22,6 +22,7 @@ pub fn describe(rep: &Report) {
     );
     rep.assume("scheduling points at lock-operation granularity; code between two lock operations of one thread is treated as atomic (all shared mutable state of these objects is behind the RwLocks; Rust's type system excludes unsynchronised sharing elsewhere)");
     rep.assume("weak memory effects are not modelled (the crate has no atomics; RwLock provides the happens-before edges)");
+    rep.assume("both facts above are re-established on the tree under examination by section sync_inventory: a Mutex / atomic / OnceLock / thread_local / static mut / UnsafeCell that the inventory does not list turns the run into 'not exhaustive' (never into a violation)");
     rep.assume("a free-running (uncontrolled) repetition of the same bodies is reported under observations as a sampling complement, not part of the verdict");
 }
 
@@ -486,5 +487,86 @@ pub fn scenarios(cfg: &RunCfg) -> Vec<Scenario> {
 pub fn sections(cfg: &RunCfg) -> Vec<Box<dyn AnySection>> {
     let sc = scenarios(cfg);
     let n = sc.len() as f64;
-    sc.into_iter().enumerate().map(|(i, s)| Box::new(E3Section { sc: s, seed: cfg.seed, budget_share: (3.0 / (n - i as f64)).min(1.0) }) as Box<dyn AnySection>).collect()
+    let mut v: Vec<Box<dyn AnySection>> = vec![E1::new(
+        "sync_inventory",
+        "every line of the subject's src/**/*.rs (verif_hooks.rs excluded) scanned for shared-state primitives; compared with the inventory of the tree the scheduler was built for",
+        vec!["src".to_string()].into_iter(),
+        check_inventory,
+    )];
+    v.extend(sc.into_iter().enumerate().map(|(i, s)| Box::new(E3Section { sc: s, seed: cfg.seed, budget_share: (3.0 / (n - i as f64)).min(1.0) }) as Box<dyn AnySection>));
+    v
+}
+
+// ---------------------------------------------------------------------------------------------
+// The scheduler owns exactly the synchronisation it can see: the three RwLock caches, routed through the lock wrapper of the
+// hooked build. Its two assumptions ("all shared mutable state is behind those locks", "the crate has no atomics") are facts
+// about the source tree, so they are re-established on the tree under examination: a primitive that appears where the
+// inventory has none (a std Mutex, an atomic flag, a OnceLock, a thread_local, a static mut ...) makes interleavings around it
+// invisible to the exploration. That is not a violation — the new primitive may be used correctly — so the run stays silent,
+// but it is reported as NOT exhaustive, with the site, instead of claiming coverage it does not have (seeded change C16-I).
+// ---------------------------------------------------------------------------------------------
+
+const SYNC_TOKENS: [&str; 17] = [
+    "Mutex", "std::sync::RwLock", "Atomic", "OnceLock", "OnceCell", "LazyLock", "LazyCell", "lazy_static", "thread_local", "static mut", "UnsafeCell", "Condvar",
+    "mpsc", "Barrier", "unsafe impl", "RefCell", "parking_lot",
+];
+/// (file, token, lines) of the tree the hooks were written for
+const SYNC_BASELINE: [(&str, &str, usize); 3] = [("util/galois.rs", "std::sync::RwLock", 1), ("util/rlwe.rs", "RefCell", 1), ("multiparty/participant.rs", "RefCell", 3)];
+
+fn scan_sync(dir: &std::path::Path, root: &std::path::Path, out: &mut Vec<(String, String, usize, String)>) -> Result<(), String> {
+    let mut entries: Vec<_> = std::fs::read_dir(dir).map_err(|e| format!("{}: {e}", dir.display()))?.filter_map(|e| e.ok()).map(|e| e.path()).collect();
+    entries.sort();
+    for p in entries {
+        if p.is_dir() {
+            scan_sync(&p, root, out)?;
+        } else if p.extension().map(|e| e == "rs").unwrap_or(false) {
+            let rel = p.strip_prefix(root).unwrap_or(&p).to_string_lossy().to_string();
+            if rel == "verif_hooks.rs" {
+                continue;
+            }
+            let text = std::fs::read_to_string(&p).map_err(|e| format!("{}: {e}", p.display()))?;
+            for (ln, line) in text.lines().enumerate() {
+                let t = line.trim_start();
+                if t.starts_with("//") {
+                    continue;
+                }
+                for tok in SYNC_TOKENS {
+                    if t.contains(tok) {
+                        out.push((rel.clone(), tok.to_string(), ln + 1, t.chars().take(100).collect()));
+                    }
+                }
+            }
+        }
+    }
+    Ok(())
+}
+
+fn check_inventory(sub: &String) -> CaseOut {
+    let subject = std::env::var("VERIF_SUBJECT").unwrap_or_else(|_| "/repo".to_string());
+    let root = std::path::Path::new(&subject).join(sub);
+    let mut found = vec![];
+    if let Err(e) = scan_sync(&root, &root, &mut found) {
+        return CaseOut::undecided(&format!("sync_inventory: cannot read the subject's sources ({e})"));
+    }
+    let mut extra: Vec<String> = vec![];
+    let mut counts: std::collections::BTreeMap<(String, String), Vec<(usize, String)>> = Default::default();
+    for (f, t, ln, text) in found {
+        counts.entry((f, t)).or_default().push((ln, text));
+    }
+    for ((f, t), sites) in &counts {
+        let allowed = SYNC_BASELINE.iter().find(|(bf, bt, _)| bf == f && bt == t).map(|b| b.2).unwrap_or(0);
+        if sites.len() > allowed {
+            let (ln, text) = &sites[sites.len() - 1];
+            extra.push(format!("src/{f}: {} line(s) with `{t}` (inventory: {allowed}), e.g. line {ln}: {text}", sites.len()));
+        }
+    }
+    if extra.is_empty() {
+        CaseOut::pass(true, h64(&counts.len()), counts.values().map(|v| v.len() as u64).sum::<u64>().max(1))
+    } else {
+        CaseOut::undecided(&format!(
+            "sync_inventory: the subject has shared-state primitives the controlled scheduler does not intercept; interleavings around them are NOT explored \
+             (the exploration below covers the RwLock caches only): {}",
+            extra.join(" | ")
+        ))
+    }
 }
